@@ -45,6 +45,8 @@ def kani_part(tier, report):
 def run(tier):
     from common import Report
     rep = Report('C18', tier, 'model_checking', 'kani+mirsym')
+    import c18m
+    c18m.run_part(tier, rep)
     kani_part(tier, rep)
-    return rep.finish(EXPLANATION, trusted_base=['Kani 0.68.0 codegen', 'CBMC 6.11.0', 'CaDiCaL'],
+    return rep.finish(EXPLANATION, trusted_base=['Kani 0.68.0 codegen', 'CBMC 6.11.0', 'CaDiCaL', 'rustc nightly MIR dump', 'mirsym interpreter + std models', 'z3 5.1.0'],
                       checker_cmd='cargo kani --only-codegen --features hooks --exact --harness ...; goto-cc; goto-instrument; cbmc --unwind N')
